@@ -42,6 +42,10 @@ package netpoll
 //@   ensures err == nil ==> !polled[fd] && !armed[fd]
 //
 // Trigger: the task is queued for the loop that owns the poller and runs there later, once (property C03, assumed).
+// trigprio: priority class of the request queued last (bookkeeping ghost): requests of one class are executed in issue order.
+//@ ghost log trigprio int
 //@ func (p *Poller) Trigger(priority queue.EventPriority, fn queue.Func, param any) (err error)
 //@   noverify lock-free queue and eventfd wake-up protocol (cross-goroutine, see C03)
 //@   requires p != nil
+//@   modifies trigprio
+//@   ghostdef trigprio := priority
